@@ -122,6 +122,9 @@ class TriggerHandler:
         # object for our whole life: a restart from another thread must not take away what the first thread is owed. Not
         # keyed by the ident of the thread: the ident of a thread that has ended is given to the next thread created.
         self.__start_thread = threading.local()
+        # the frames we have work pending for (in any thread): while we wait for their line or function to complete they
+        # are ours, also after we have been shut down and another agent has been started
+        self.__waiting_for = []
         self.__hooks_installed = False
         self.__shutdown = False
         self._push_service = push_service
@@ -204,17 +207,34 @@ class TriggerHandler:
             for frame in sys._current_frames().values():
                 while frame is not None:
                     current = frame.f_trace
-                    if current is None or self.__is_of_a_stopped_agent(current):
+                    if current is None or self.__is_of_a_stopped_agent(current, frame):
                         frame.f_trace = self.trace_call
                     frame = frame.f_back
         except BaseException:
             logging.exception("Cannot trace the calls in progress")
 
-    def __is_of_a_stopped_agent(self, function) -> bool:
+    def __is_of_a_stopped_agent(self, function, frame: FrameType) -> bool:
         # the function of an agent that has been shut down answers None to every event of the frame, and python keeps it
-        # there: a function still running when the agent was replaced (a main loop) would never reach us
+        # there: a function still running when the agent was replaced (a main loop) would never reach us. Unless that
+        # agent still has work pending for the frame (a span to close when the function returns): then the frame is its.
         other = getattr(function, '__self__', None)
-        return isinstance(other, TriggerHandler) and other is not self and other.__shutdown
+        if not isinstance(other, TriggerHandler) or other is self or not other.__shutdown:
+            return False
+        return not any(waiting is frame for waiting in list(other.__waiting_for))
+
+    def __successor_on(self, frame: FrameType) -> Optional['TriggerHandler']:
+        while frame is not None:
+            other = getattr(frame.f_trace, '__self__', None)
+            if isinstance(other, TriggerHandler) and other is not self and not other.__shutdown:
+                return other
+            frame = frame.f_back
+        return None
+
+    def __no_longer_waiting_for(self, frame: FrameType):
+        for index, waiting in enumerate(self.__waiting_for):
+            if waiting is frame:
+                del self.__waiting_for[index]
+                return
 
     def trace_call(self, frame: FrameType, event: str, arg):
         """
@@ -228,7 +248,7 @@ class TriggerHandler:
         :return: None to ignore other calls, or our self to continue
         """
         if self.__shutdown and not self._callbacks.is_set:
-            return self.__leave_thread()
+            return self.__leave_thread(frame)
         # (after shutdown we are still called for what this thread has pending - spans to close, deferred snapshots -
         # until it is completed; there are no tracepoints any more, so nothing new is started)
         try:
@@ -242,7 +262,7 @@ class TriggerHandler:
                 pass
             return self.trace_call
 
-    def __leave_thread(self):
+    def __leave_thread(self, frame: FrameType = None):
         """
         Remove our trace function from the calling thread, after shutdown.
 
@@ -258,7 +278,17 @@ class TriggerHandler:
                     del self.__start_thread.old
                 else:
                     remembered = self.__old_thread_trace
-                sys.settrace(self.__put_back(remembered))
+                remembered = self.__put_back(remembered)
+                successor = self.__successor_on(frame)
+                if successor is not None:
+                    # another agent, started since, acts on functions of this thread that were running then (it has
+                    # taken their frames over from us): the thread is handed to it, or the calls those functions make
+                    # would never reach it - it could open a span on a line and never see the line complete. What we
+                    # would have put back is what it puts back when it leaves.
+                    if not hasattr(successor.__start_thread, 'old'):
+                        successor.__start_thread.old = remembered
+                    remembered = successor.trace_call
+                sys.settrace(remembered)
         except BaseException:
             pass
         return None
@@ -348,6 +378,7 @@ class TriggerHandler:
             logging.debug("Callbacks registered: %s", callbacks)
             self._callbacks.get().append(
                 CallbackContext(event, file, line, function, callbacks, frame))
+            self.__waiting_for.append(frame)
             # the callbacks refer back to the trigger context: it must not refer to them once they are handed over,
             # or it (and the frame) is only released by the garbage collector
             trigger_context.callbacks = []
@@ -372,11 +403,13 @@ class TriggerHandler:
             # context off and putting it back, or the context - the span to close, the snapshot to send - is lost
             if len(pending) > 0 and pending[-1].at_location(event, file, line, function_name, frame):
                 context: CallbackContext = pending.pop()
+                self.__no_longer_waiting_for(context.frame)
                 context.process(ctx, event, frame, arg)
                 # the same event also completes whatever else is pending for this very frame (e.g. a method span
                 # and a span on the line that returns)
                 while len(pending) > 0 and pending[-1].frame is frame \
                         and pending[-1].at_location(event, file, line, function_name, frame):
+                    self.__no_longer_waiting_for(frame)
                     pending.pop().process(ctx, event, frame, arg)
         finally:
             # also when a callback failed: never leave an empty entry behind for this thread
